@@ -39,6 +39,8 @@ PROOF_UNITS = {
     'C05': _kernel_units('removal') + [('contracts.kernel', 'AddInteraction', (cls,), {'mode': 'removal', 't': 'int', 'e': e, 'inv': 'strong'})
                                        for cls in ('DynGraph', 'DynDiGraph') for e in ('none', 'int')],
     'C07': _kernel_units('removal') + _kernel_units('accum'),
+    'C06': [('contracts.slice', 'TimeSlice', (cls,), {'t_to': t}) for cls in ('DynGraph', 'DynDiGraph') for t in ('int', 'none')]
+           + [('contracts.ctor', 'Init', (cls,), {'edge_removal': e}) for cls in ('DynGraph', 'DynDiGraph') for e in ('default', 'given')],
     'C08': _kernel_units('accum') + _observer_units('accum'),
     'C18': [('contracts.pure', 'CompactTimeslot', (), {})],
 }
@@ -73,7 +75,7 @@ STATIC_PARTS = {
 
 LEVELS = {
     'C01': 'other', 'C03': 'other', 'C04': 'other', 'C05': 'other', 'C07': 'other', 'C08': 'other',
-    'C02': 'exploration', 'C06': 'exploration', 'C16': 'exploration', 'C17': 'exploration', 'C19': 'other',
+    'C02': 'exploration', 'C06': 'other', 'C16': 'exploration', 'C17': 'exploration', 'C19': 'other',
     'C09': 'exploration', 'C10': 'exploration', 'C11': 'exploration', 'C18': 'other',
     'C12': 'exploration', 'C13': 'exploration', 'C14': 'exploration', 'C15': 'exploration', 'C20': 'exploration',
 }
